@@ -420,9 +420,27 @@ func report(cfg *Config, ld *Loaded, db *SpecDB, results []*UnitResult, loadS, g
 			fmt.Printf("NOTE: known finding no longer fails: %s\n", kf.Obligation)
 		}
 	}
-	for _, e := range engineErrs {
+	for i, e := range engineErrs {
 		fmt.Println("UNDECIDED:", e)
 		exit = 2
+		// A contract clause that can no longer be evaluated on the code (it names a local, loop or function the source
+		// no longer has) leaves its obligation unproved: reported as a violation of that clause, with the message as
+		// the reason. Engine limits (unsupported constructs) stay undecided.
+		if strings.Contains(e, ": spec: ") || strings.Contains(e, "contract target missing") || strings.Contains(e, "contract names loop") {
+			unit := e
+			if j := strings.Index(e, ": "); j >= 0 {
+				unit = e[:j]
+			}
+			name := unit + "/contract/no longer applies to the code"
+			dir := filepath.Join(cfg.Verif, "replays", cfg.Prop)
+			os.MkdirAll(dir, 0o755)
+			rp := filepath.Join(dir, sanitize(name)+fmt.Sprintf("_%d.json", i)+"")
+			rf := &ReplayFile{Property: cfg.Prop, Obligation: name, Kind: "contract", Function: unit, Status: "not-generated", SolverOut: e}
+			data, _ := json.MarshalIndent(rf, "", " ")
+			os.WriteFile(rp, data, 0o644)
+			fmt.Printf("FAILED obligation %s [contract] %s\n", name, trunc(e, 200))
+			violations = append(violations, fmt.Sprintf("VIOLATION property=%s replay=%s no-failing-input-found", cfg.Prop, rp))
+		}
 	}
 	for _, v := range violations {
 		fmt.Println(v)
